@@ -173,6 +173,11 @@ def random_desc(rng: random.Random, nf: int) -> dict:
         name = f"f{i}"
         k = rng.choice([0, 1, 2, 2, 3])
         params = rng.sample(avail, min(k, len(avail)))
+        # bias towards diamonds: several consumers of the same earlier output
+        if funcs and rng.random() < 0.5:
+            shared = funcs[0]["outputs"][0]
+            if shared not in params:
+                params = (params + [shared])[-3:]
         outs = [f"o{i}"] if rng.random() < 0.75 else [f"o{i}", f"o{i}b"]
         dfl = []
         bnd = []
@@ -184,7 +189,7 @@ def random_desc(rng: random.Random, nf: int) -> dict:
                 bnd.append([p, {"f": f"@b_{p}_{i}", "a": []}])
         funcs.append({"name": name, "params": params, "outputs": outs, "defaults": dfl, "bound": bnd, "has_ms": False,
                       "ms": {"ins": [], "outs": []}, "internal": [], "cache": False,
-                      "retnone": rng.random() < 0.12,                      # None is an ordinary result value
+                      "retnone": rng.random() < (0.35 if i == 0 else 0.1),                      # None is an ordinary result value
                       "outperm": len(outs) > 1 and rng.random() < 0.4,     # tuple outputs renamed by a permutation
                       "outrenamed": rng.random() < 0.2})
         avail += outs
